@@ -503,12 +503,13 @@ def end(ctx, res=None):
     return stuck
 
 
-def check_common(res, prop_prefix=""):
+def check_common(res, prop_prefix="", deadlock_suffix=""):
     """Oracles every execution gets: definite deadlocks and uncaught
-    exceptions in threads."""
+    exceptions in threads.  ``deadlock_suffix`` lets a scenario add what it was doing to the
+    mechanism key of a deadlock (so that a known finding names one situation, not a lock pair)."""
     for d in LM.deadlocks:
         res.violation(
-            "deadlock/" + d["kind"] + "/" + "+".join(d["locks"]),
+            "deadlock/" + d["kind"] + "/" + "+".join(d["locks"]) + deadlock_suffix,
             "lock monitor: %s among %s" % (d["kind"], d["threads"]),
             deadlock=d,
         )
